@@ -17,7 +17,13 @@
    statements about them.
 
    The model mirrors the code after the fix commits 8d7dbf1e8 (claim-or-await on return),
-   5a883bad7 (timer branch polls ack/ctx) and df56df347 (close branch polls ctx). *)
+   5a883bad7 (timer branch polls ack/ctx), df56df347 (close branch polls ctx) and 459a12526
+   (after waiting for a handler that had claimed the call, Do returns its outcome instead of
+   the retryable engine-closed error).
+
+   Explicit environment assumptions, visible as guards: the msg ids of all calls that enter
+   Do are pairwise distinct (CEntered, ghost [used]); an injected send reports
+   context.Canceled only if the retry context is cancelled (CSend with outcome 2). *)
 From Coq Require Import ZArith List Bool.
 From TD Require Import Gen.RpcClass.
 Import ListNotations.
@@ -79,47 +85,48 @@ Record call := mkCall {
   selfclaim : bool;
   sendcanc : bool;
   leftloop : bool;
-  violleft : bool
+  violleft : bool;
+  entered : bool
 }.
 
-Definition set_pc (k : call) (v : cpc) : call := mkCall v (mid k) (seq k) (body k) (ucancel k) (rcancel k) (ackclosed k) (tmade k) (armed k) (tval k) (retries k) (sent k) (hc k) (writer k) (done k) (res k) (out k) (nwrites k) (nsends k) (ndrops k) (nret k) (late k) (isobad k) (deliv k) (snap25 k) (viol25 k) (snap26 k) (viol26 k) (everreg k) (selfclaim k) (sendcanc k) (leftloop k) (violleft k).
-Definition set_mid (k : call) (v : Z) : call := mkCall (pc k) v (seq k) (body k) (ucancel k) (rcancel k) (ackclosed k) (tmade k) (armed k) (tval k) (retries k) (sent k) (hc k) (writer k) (done k) (res k) (out k) (nwrites k) (nsends k) (ndrops k) (nret k) (late k) (isobad k) (deliv k) (snap25 k) (viol25 k) (snap26 k) (viol26 k) (everreg k) (selfclaim k) (sendcanc k) (leftloop k) (violleft k).
-Definition set_seq (k : call) (v : Z) : call := mkCall (pc k) (mid k) v (body k) (ucancel k) (rcancel k) (ackclosed k) (tmade k) (armed k) (tval k) (retries k) (sent k) (hc k) (writer k) (done k) (res k) (out k) (nwrites k) (nsends k) (ndrops k) (nret k) (late k) (isobad k) (deliv k) (snap25 k) (viol25 k) (snap26 k) (viol26 k) (everreg k) (selfclaim k) (sendcanc k) (leftloop k) (violleft k).
-Definition set_body (k : call) (v : Z) : call := mkCall (pc k) (mid k) (seq k) v (ucancel k) (rcancel k) (ackclosed k) (tmade k) (armed k) (tval k) (retries k) (sent k) (hc k) (writer k) (done k) (res k) (out k) (nwrites k) (nsends k) (ndrops k) (nret k) (late k) (isobad k) (deliv k) (snap25 k) (viol25 k) (snap26 k) (viol26 k) (everreg k) (selfclaim k) (sendcanc k) (leftloop k) (violleft k).
-Definition set_ucancel (k : call) (v : bool) : call := mkCall (pc k) (mid k) (seq k) (body k) v (rcancel k) (ackclosed k) (tmade k) (armed k) (tval k) (retries k) (sent k) (hc k) (writer k) (done k) (res k) (out k) (nwrites k) (nsends k) (ndrops k) (nret k) (late k) (isobad k) (deliv k) (snap25 k) (viol25 k) (snap26 k) (viol26 k) (everreg k) (selfclaim k) (sendcanc k) (leftloop k) (violleft k).
-Definition set_rcancel (k : call) (v : bool) : call := mkCall (pc k) (mid k) (seq k) (body k) (ucancel k) v (ackclosed k) (tmade k) (armed k) (tval k) (retries k) (sent k) (hc k) (writer k) (done k) (res k) (out k) (nwrites k) (nsends k) (ndrops k) (nret k) (late k) (isobad k) (deliv k) (snap25 k) (viol25 k) (snap26 k) (viol26 k) (everreg k) (selfclaim k) (sendcanc k) (leftloop k) (violleft k).
-Definition set_ackclosed (k : call) (v : bool) : call := mkCall (pc k) (mid k) (seq k) (body k) (ucancel k) (rcancel k) v (tmade k) (armed k) (tval k) (retries k) (sent k) (hc k) (writer k) (done k) (res k) (out k) (nwrites k) (nsends k) (ndrops k) (nret k) (late k) (isobad k) (deliv k) (snap25 k) (viol25 k) (snap26 k) (viol26 k) (everreg k) (selfclaim k) (sendcanc k) (leftloop k) (violleft k).
-Definition set_tmade (k : call) (v : bool) : call := mkCall (pc k) (mid k) (seq k) (body k) (ucancel k) (rcancel k) (ackclosed k) v (armed k) (tval k) (retries k) (sent k) (hc k) (writer k) (done k) (res k) (out k) (nwrites k) (nsends k) (ndrops k) (nret k) (late k) (isobad k) (deliv k) (snap25 k) (viol25 k) (snap26 k) (viol26 k) (everreg k) (selfclaim k) (sendcanc k) (leftloop k) (violleft k).
-Definition set_armed (k : call) (v : bool) : call := mkCall (pc k) (mid k) (seq k) (body k) (ucancel k) (rcancel k) (ackclosed k) (tmade k) v (tval k) (retries k) (sent k) (hc k) (writer k) (done k) (res k) (out k) (nwrites k) (nsends k) (ndrops k) (nret k) (late k) (isobad k) (deliv k) (snap25 k) (viol25 k) (snap26 k) (viol26 k) (everreg k) (selfclaim k) (sendcanc k) (leftloop k) (violleft k).
-Definition set_tval (k : call) (v : bool) : call := mkCall (pc k) (mid k) (seq k) (body k) (ucancel k) (rcancel k) (ackclosed k) (tmade k) (armed k) v (retries k) (sent k) (hc k) (writer k) (done k) (res k) (out k) (nwrites k) (nsends k) (ndrops k) (nret k) (late k) (isobad k) (deliv k) (snap25 k) (viol25 k) (snap26 k) (viol26 k) (everreg k) (selfclaim k) (sendcanc k) (leftloop k) (violleft k).
-Definition set_retries (k : call) (v : Z) : call := mkCall (pc k) (mid k) (seq k) (body k) (ucancel k) (rcancel k) (ackclosed k) (tmade k) (armed k) (tval k) v (sent k) (hc k) (writer k) (done k) (res k) (out k) (nwrites k) (nsends k) (ndrops k) (nret k) (late k) (isobad k) (deliv k) (snap25 k) (viol25 k) (snap26 k) (viol26 k) (everreg k) (selfclaim k) (sendcanc k) (leftloop k) (violleft k).
-Definition set_sent (k : call) (v : bool) : call := mkCall (pc k) (mid k) (seq k) (body k) (ucancel k) (rcancel k) (ackclosed k) (tmade k) (armed k) (tval k) (retries k) v (hc k) (writer k) (done k) (res k) (out k) (nwrites k) (nsends k) (ndrops k) (nret k) (late k) (isobad k) (deliv k) (snap25 k) (viol25 k) (snap26 k) (viol26 k) (everreg k) (selfclaim k) (sendcanc k) (leftloop k) (violleft k).
-Definition set_hc (k : call) (v : bool) : call := mkCall (pc k) (mid k) (seq k) (body k) (ucancel k) (rcancel k) (ackclosed k) (tmade k) (armed k) (tval k) (retries k) (sent k) v (writer k) (done k) (res k) (out k) (nwrites k) (nsends k) (ndrops k) (nret k) (late k) (isobad k) (deliv k) (snap25 k) (viol25 k) (snap26 k) (viol26 k) (everreg k) (selfclaim k) (sendcanc k) (leftloop k) (violleft k).
-Definition set_writer (k : call) (v : option Z) : call := mkCall (pc k) (mid k) (seq k) (body k) (ucancel k) (rcancel k) (ackclosed k) (tmade k) (armed k) (tval k) (retries k) (sent k) (hc k) v (done k) (res k) (out k) (nwrites k) (nsends k) (ndrops k) (nret k) (late k) (isobad k) (deliv k) (snap25 k) (viol25 k) (snap26 k) (viol26 k) (everreg k) (selfclaim k) (sendcanc k) (leftloop k) (violleft k).
-Definition set_done (k : call) (v : bool) : call := mkCall (pc k) (mid k) (seq k) (body k) (ucancel k) (rcancel k) (ackclosed k) (tmade k) (armed k) (tval k) (retries k) (sent k) (hc k) (writer k) v (res k) (out k) (nwrites k) (nsends k) (ndrops k) (nret k) (late k) (isobad k) (deliv k) (snap25 k) (viol25 k) (snap26 k) (viol26 k) (everreg k) (selfclaim k) (sendcanc k) (leftloop k) (violleft k).
-Definition set_res (k : call) (v : retv) : call := mkCall (pc k) (mid k) (seq k) (body k) (ucancel k) (rcancel k) (ackclosed k) (tmade k) (armed k) (tval k) (retries k) (sent k) (hc k) (writer k) (done k) v (out k) (nwrites k) (nsends k) (ndrops k) (nret k) (late k) (isobad k) (deliv k) (snap25 k) (viol25 k) (snap26 k) (viol26 k) (everreg k) (selfclaim k) (sendcanc k) (leftloop k) (violleft k).
-Definition set_out (k : call) (v : Z) : call := mkCall (pc k) (mid k) (seq k) (body k) (ucancel k) (rcancel k) (ackclosed k) (tmade k) (armed k) (tval k) (retries k) (sent k) (hc k) (writer k) (done k) (res k) v (nwrites k) (nsends k) (ndrops k) (nret k) (late k) (isobad k) (deliv k) (snap25 k) (viol25 k) (snap26 k) (viol26 k) (everreg k) (selfclaim k) (sendcanc k) (leftloop k) (violleft k).
-Definition set_nwrites (k : call) (v : Z) : call := mkCall (pc k) (mid k) (seq k) (body k) (ucancel k) (rcancel k) (ackclosed k) (tmade k) (armed k) (tval k) (retries k) (sent k) (hc k) (writer k) (done k) (res k) (out k) v (nsends k) (ndrops k) (nret k) (late k) (isobad k) (deliv k) (snap25 k) (viol25 k) (snap26 k) (viol26 k) (everreg k) (selfclaim k) (sendcanc k) (leftloop k) (violleft k).
-Definition set_nsends (k : call) (v : Z) : call := mkCall (pc k) (mid k) (seq k) (body k) (ucancel k) (rcancel k) (ackclosed k) (tmade k) (armed k) (tval k) (retries k) (sent k) (hc k) (writer k) (done k) (res k) (out k) (nwrites k) v (ndrops k) (nret k) (late k) (isobad k) (deliv k) (snap25 k) (viol25 k) (snap26 k) (viol26 k) (everreg k) (selfclaim k) (sendcanc k) (leftloop k) (violleft k).
-Definition set_ndrops (k : call) (v : Z) : call := mkCall (pc k) (mid k) (seq k) (body k) (ucancel k) (rcancel k) (ackclosed k) (tmade k) (armed k) (tval k) (retries k) (sent k) (hc k) (writer k) (done k) (res k) (out k) (nwrites k) (nsends k) v (nret k) (late k) (isobad k) (deliv k) (snap25 k) (viol25 k) (snap26 k) (viol26 k) (everreg k) (selfclaim k) (sendcanc k) (leftloop k) (violleft k).
-Definition set_nret (k : call) (v : Z) : call := mkCall (pc k) (mid k) (seq k) (body k) (ucancel k) (rcancel k) (ackclosed k) (tmade k) (armed k) (tval k) (retries k) (sent k) (hc k) (writer k) (done k) (res k) (out k) (nwrites k) (nsends k) (ndrops k) v (late k) (isobad k) (deliv k) (snap25 k) (viol25 k) (snap26 k) (viol26 k) (everreg k) (selfclaim k) (sendcanc k) (leftloop k) (violleft k).
-Definition set_late (k : call) (v : bool) : call := mkCall (pc k) (mid k) (seq k) (body k) (ucancel k) (rcancel k) (ackclosed k) (tmade k) (armed k) (tval k) (retries k) (sent k) (hc k) (writer k) (done k) (res k) (out k) (nwrites k) (nsends k) (ndrops k) (nret k) v (isobad k) (deliv k) (snap25 k) (viol25 k) (snap26 k) (viol26 k) (everreg k) (selfclaim k) (sendcanc k) (leftloop k) (violleft k).
-Definition set_isobad (k : call) (v : bool) : call := mkCall (pc k) (mid k) (seq k) (body k) (ucancel k) (rcancel k) (ackclosed k) (tmade k) (armed k) (tval k) (retries k) (sent k) (hc k) (writer k) (done k) (res k) (out k) (nwrites k) (nsends k) (ndrops k) (nret k) (late k) v (deliv k) (snap25 k) (viol25 k) (snap26 k) (viol26 k) (everreg k) (selfclaim k) (sendcanc k) (leftloop k) (violleft k).
-Definition set_deliv (k : call) (v : bool) : call := mkCall (pc k) (mid k) (seq k) (body k) (ucancel k) (rcancel k) (ackclosed k) (tmade k) (armed k) (tval k) (retries k) (sent k) (hc k) (writer k) (done k) (res k) (out k) (nwrites k) (nsends k) (ndrops k) (nret k) (late k) (isobad k) v (snap25 k) (viol25 k) (snap26 k) (viol26 k) (everreg k) (selfclaim k) (sendcanc k) (leftloop k) (violleft k).
-Definition set_snap25 (k : call) (v : bool) : call := mkCall (pc k) (mid k) (seq k) (body k) (ucancel k) (rcancel k) (ackclosed k) (tmade k) (armed k) (tval k) (retries k) (sent k) (hc k) (writer k) (done k) (res k) (out k) (nwrites k) (nsends k) (ndrops k) (nret k) (late k) (isobad k) (deliv k) v (viol25 k) (snap26 k) (viol26 k) (everreg k) (selfclaim k) (sendcanc k) (leftloop k) (violleft k).
-Definition set_viol25 (k : call) (v : bool) : call := mkCall (pc k) (mid k) (seq k) (body k) (ucancel k) (rcancel k) (ackclosed k) (tmade k) (armed k) (tval k) (retries k) (sent k) (hc k) (writer k) (done k) (res k) (out k) (nwrites k) (nsends k) (ndrops k) (nret k) (late k) (isobad k) (deliv k) (snap25 k) v (snap26 k) (viol26 k) (everreg k) (selfclaim k) (sendcanc k) (leftloop k) (violleft k).
-Definition set_snap26 (k : call) (v : bool) : call := mkCall (pc k) (mid k) (seq k) (body k) (ucancel k) (rcancel k) (ackclosed k) (tmade k) (armed k) (tval k) (retries k) (sent k) (hc k) (writer k) (done k) (res k) (out k) (nwrites k) (nsends k) (ndrops k) (nret k) (late k) (isobad k) (deliv k) (snap25 k) (viol25 k) v (viol26 k) (everreg k) (selfclaim k) (sendcanc k) (leftloop k) (violleft k).
-Definition set_viol26 (k : call) (v : bool) : call := mkCall (pc k) (mid k) (seq k) (body k) (ucancel k) (rcancel k) (ackclosed k) (tmade k) (armed k) (tval k) (retries k) (sent k) (hc k) (writer k) (done k) (res k) (out k) (nwrites k) (nsends k) (ndrops k) (nret k) (late k) (isobad k) (deliv k) (snap25 k) (viol25 k) (snap26 k) v (everreg k) (selfclaim k) (sendcanc k) (leftloop k) (violleft k).
-Definition set_everreg (k : call) (v : bool) : call := mkCall (pc k) (mid k) (seq k) (body k) (ucancel k) (rcancel k) (ackclosed k) (tmade k) (armed k) (tval k) (retries k) (sent k) (hc k) (writer k) (done k) (res k) (out k) (nwrites k) (nsends k) (ndrops k) (nret k) (late k) (isobad k) (deliv k) (snap25 k) (viol25 k) (snap26 k) (viol26 k) v (selfclaim k) (sendcanc k) (leftloop k) (violleft k).
-Definition set_selfclaim (k : call) (v : bool) : call := mkCall (pc k) (mid k) (seq k) (body k) (ucancel k) (rcancel k) (ackclosed k) (tmade k) (armed k) (tval k) (retries k) (sent k) (hc k) (writer k) (done k) (res k) (out k) (nwrites k) (nsends k) (ndrops k) (nret k) (late k) (isobad k) (deliv k) (snap25 k) (viol25 k) (snap26 k) (viol26 k) (everreg k) v (sendcanc k) (leftloop k) (violleft k).
-Definition set_sendcanc (k : call) (v : bool) : call := mkCall (pc k) (mid k) (seq k) (body k) (ucancel k) (rcancel k) (ackclosed k) (tmade k) (armed k) (tval k) (retries k) (sent k) (hc k) (writer k) (done k) (res k) (out k) (nwrites k) (nsends k) (ndrops k) (nret k) (late k) (isobad k) (deliv k) (snap25 k) (viol25 k) (snap26 k) (viol26 k) (everreg k) (selfclaim k) v (leftloop k) (violleft k).
-Definition set_leftloop (k : call) (v : bool) : call := mkCall (pc k) (mid k) (seq k) (body k) (ucancel k) (rcancel k) (ackclosed k) (tmade k) (armed k) (tval k) (retries k) (sent k) (hc k) (writer k) (done k) (res k) (out k) (nwrites k) (nsends k) (ndrops k) (nret k) (late k) (isobad k) (deliv k) (snap25 k) (viol25 k) (snap26 k) (viol26 k) (everreg k) (selfclaim k) (sendcanc k) v (violleft k).
-Definition set_violleft (k : call) (v : bool) : call := mkCall (pc k) (mid k) (seq k) (body k) (ucancel k) (rcancel k) (ackclosed k) (tmade k) (armed k) (tval k) (retries k) (sent k) (hc k) (writer k) (done k) (res k) (out k) (nwrites k) (nsends k) (ndrops k) (nret k) (late k) (isobad k) (deliv k) (snap25 k) (viol25 k) (snap26 k) (viol26 k) (everreg k) (selfclaim k) (sendcanc k) (leftloop k) v.
-
+Definition set_pc (k : call) (v : cpc) : call := mkCall v (mid k) (seq k) (body k) (ucancel k) (rcancel k) (ackclosed k) (tmade k) (armed k) (tval k) (retries k) (sent k) (hc k) (writer k) (done k) (res k) (out k) (nwrites k) (nsends k) (ndrops k) (nret k) (late k) (isobad k) (deliv k) (snap25 k) (viol25 k) (snap26 k) (viol26 k) (everreg k) (selfclaim k) (sendcanc k) (leftloop k) (violleft k) (entered k).
+Definition set_mid (k : call) (v : Z) : call := mkCall (pc k) v (seq k) (body k) (ucancel k) (rcancel k) (ackclosed k) (tmade k) (armed k) (tval k) (retries k) (sent k) (hc k) (writer k) (done k) (res k) (out k) (nwrites k) (nsends k) (ndrops k) (nret k) (late k) (isobad k) (deliv k) (snap25 k) (viol25 k) (snap26 k) (viol26 k) (everreg k) (selfclaim k) (sendcanc k) (leftloop k) (violleft k) (entered k).
+Definition set_seq (k : call) (v : Z) : call := mkCall (pc k) (mid k) v (body k) (ucancel k) (rcancel k) (ackclosed k) (tmade k) (armed k) (tval k) (retries k) (sent k) (hc k) (writer k) (done k) (res k) (out k) (nwrites k) (nsends k) (ndrops k) (nret k) (late k) (isobad k) (deliv k) (snap25 k) (viol25 k) (snap26 k) (viol26 k) (everreg k) (selfclaim k) (sendcanc k) (leftloop k) (violleft k) (entered k).
+Definition set_body (k : call) (v : Z) : call := mkCall (pc k) (mid k) (seq k) v (ucancel k) (rcancel k) (ackclosed k) (tmade k) (armed k) (tval k) (retries k) (sent k) (hc k) (writer k) (done k) (res k) (out k) (nwrites k) (nsends k) (ndrops k) (nret k) (late k) (isobad k) (deliv k) (snap25 k) (viol25 k) (snap26 k) (viol26 k) (everreg k) (selfclaim k) (sendcanc k) (leftloop k) (violleft k) (entered k).
+Definition set_ucancel (k : call) (v : bool) : call := mkCall (pc k) (mid k) (seq k) (body k) v (rcancel k) (ackclosed k) (tmade k) (armed k) (tval k) (retries k) (sent k) (hc k) (writer k) (done k) (res k) (out k) (nwrites k) (nsends k) (ndrops k) (nret k) (late k) (isobad k) (deliv k) (snap25 k) (viol25 k) (snap26 k) (viol26 k) (everreg k) (selfclaim k) (sendcanc k) (leftloop k) (violleft k) (entered k).
+Definition set_rcancel (k : call) (v : bool) : call := mkCall (pc k) (mid k) (seq k) (body k) (ucancel k) v (ackclosed k) (tmade k) (armed k) (tval k) (retries k) (sent k) (hc k) (writer k) (done k) (res k) (out k) (nwrites k) (nsends k) (ndrops k) (nret k) (late k) (isobad k) (deliv k) (snap25 k) (viol25 k) (snap26 k) (viol26 k) (everreg k) (selfclaim k) (sendcanc k) (leftloop k) (violleft k) (entered k).
+Definition set_ackclosed (k : call) (v : bool) : call := mkCall (pc k) (mid k) (seq k) (body k) (ucancel k) (rcancel k) v (tmade k) (armed k) (tval k) (retries k) (sent k) (hc k) (writer k) (done k) (res k) (out k) (nwrites k) (nsends k) (ndrops k) (nret k) (late k) (isobad k) (deliv k) (snap25 k) (viol25 k) (snap26 k) (viol26 k) (everreg k) (selfclaim k) (sendcanc k) (leftloop k) (violleft k) (entered k).
+Definition set_tmade (k : call) (v : bool) : call := mkCall (pc k) (mid k) (seq k) (body k) (ucancel k) (rcancel k) (ackclosed k) v (armed k) (tval k) (retries k) (sent k) (hc k) (writer k) (done k) (res k) (out k) (nwrites k) (nsends k) (ndrops k) (nret k) (late k) (isobad k) (deliv k) (snap25 k) (viol25 k) (snap26 k) (viol26 k) (everreg k) (selfclaim k) (sendcanc k) (leftloop k) (violleft k) (entered k).
+Definition set_armed (k : call) (v : bool) : call := mkCall (pc k) (mid k) (seq k) (body k) (ucancel k) (rcancel k) (ackclosed k) (tmade k) v (tval k) (retries k) (sent k) (hc k) (writer k) (done k) (res k) (out k) (nwrites k) (nsends k) (ndrops k) (nret k) (late k) (isobad k) (deliv k) (snap25 k) (viol25 k) (snap26 k) (viol26 k) (everreg k) (selfclaim k) (sendcanc k) (leftloop k) (violleft k) (entered k).
+Definition set_tval (k : call) (v : bool) : call := mkCall (pc k) (mid k) (seq k) (body k) (ucancel k) (rcancel k) (ackclosed k) (tmade k) (armed k) v (retries k) (sent k) (hc k) (writer k) (done k) (res k) (out k) (nwrites k) (nsends k) (ndrops k) (nret k) (late k) (isobad k) (deliv k) (snap25 k) (viol25 k) (snap26 k) (viol26 k) (everreg k) (selfclaim k) (sendcanc k) (leftloop k) (violleft k) (entered k).
+Definition set_retries (k : call) (v : Z) : call := mkCall (pc k) (mid k) (seq k) (body k) (ucancel k) (rcancel k) (ackclosed k) (tmade k) (armed k) (tval k) v (sent k) (hc k) (writer k) (done k) (res k) (out k) (nwrites k) (nsends k) (ndrops k) (nret k) (late k) (isobad k) (deliv k) (snap25 k) (viol25 k) (snap26 k) (viol26 k) (everreg k) (selfclaim k) (sendcanc k) (leftloop k) (violleft k) (entered k).
+Definition set_sent (k : call) (v : bool) : call := mkCall (pc k) (mid k) (seq k) (body k) (ucancel k) (rcancel k) (ackclosed k) (tmade k) (armed k) (tval k) (retries k) v (hc k) (writer k) (done k) (res k) (out k) (nwrites k) (nsends k) (ndrops k) (nret k) (late k) (isobad k) (deliv k) (snap25 k) (viol25 k) (snap26 k) (viol26 k) (everreg k) (selfclaim k) (sendcanc k) (leftloop k) (violleft k) (entered k).
+Definition set_hc (k : call) (v : bool) : call := mkCall (pc k) (mid k) (seq k) (body k) (ucancel k) (rcancel k) (ackclosed k) (tmade k) (armed k) (tval k) (retries k) (sent k) v (writer k) (done k) (res k) (out k) (nwrites k) (nsends k) (ndrops k) (nret k) (late k) (isobad k) (deliv k) (snap25 k) (viol25 k) (snap26 k) (viol26 k) (everreg k) (selfclaim k) (sendcanc k) (leftloop k) (violleft k) (entered k).
+Definition set_writer (k : call) (v : option Z) : call := mkCall (pc k) (mid k) (seq k) (body k) (ucancel k) (rcancel k) (ackclosed k) (tmade k) (armed k) (tval k) (retries k) (sent k) (hc k) v (done k) (res k) (out k) (nwrites k) (nsends k) (ndrops k) (nret k) (late k) (isobad k) (deliv k) (snap25 k) (viol25 k) (snap26 k) (viol26 k) (everreg k) (selfclaim k) (sendcanc k) (leftloop k) (violleft k) (entered k).
+Definition set_done (k : call) (v : bool) : call := mkCall (pc k) (mid k) (seq k) (body k) (ucancel k) (rcancel k) (ackclosed k) (tmade k) (armed k) (tval k) (retries k) (sent k) (hc k) (writer k) v (res k) (out k) (nwrites k) (nsends k) (ndrops k) (nret k) (late k) (isobad k) (deliv k) (snap25 k) (viol25 k) (snap26 k) (viol26 k) (everreg k) (selfclaim k) (sendcanc k) (leftloop k) (violleft k) (entered k).
+Definition set_res (k : call) (v : retv) : call := mkCall (pc k) (mid k) (seq k) (body k) (ucancel k) (rcancel k) (ackclosed k) (tmade k) (armed k) (tval k) (retries k) (sent k) (hc k) (writer k) (done k) v (out k) (nwrites k) (nsends k) (ndrops k) (nret k) (late k) (isobad k) (deliv k) (snap25 k) (viol25 k) (snap26 k) (viol26 k) (everreg k) (selfclaim k) (sendcanc k) (leftloop k) (violleft k) (entered k).
+Definition set_out (k : call) (v : Z) : call := mkCall (pc k) (mid k) (seq k) (body k) (ucancel k) (rcancel k) (ackclosed k) (tmade k) (armed k) (tval k) (retries k) (sent k) (hc k) (writer k) (done k) (res k) v (nwrites k) (nsends k) (ndrops k) (nret k) (late k) (isobad k) (deliv k) (snap25 k) (viol25 k) (snap26 k) (viol26 k) (everreg k) (selfclaim k) (sendcanc k) (leftloop k) (violleft k) (entered k).
+Definition set_nwrites (k : call) (v : Z) : call := mkCall (pc k) (mid k) (seq k) (body k) (ucancel k) (rcancel k) (ackclosed k) (tmade k) (armed k) (tval k) (retries k) (sent k) (hc k) (writer k) (done k) (res k) (out k) v (nsends k) (ndrops k) (nret k) (late k) (isobad k) (deliv k) (snap25 k) (viol25 k) (snap26 k) (viol26 k) (everreg k) (selfclaim k) (sendcanc k) (leftloop k) (violleft k) (entered k).
+Definition set_nsends (k : call) (v : Z) : call := mkCall (pc k) (mid k) (seq k) (body k) (ucancel k) (rcancel k) (ackclosed k) (tmade k) (armed k) (tval k) (retries k) (sent k) (hc k) (writer k) (done k) (res k) (out k) (nwrites k) v (ndrops k) (nret k) (late k) (isobad k) (deliv k) (snap25 k) (viol25 k) (snap26 k) (viol26 k) (everreg k) (selfclaim k) (sendcanc k) (leftloop k) (violleft k) (entered k).
+Definition set_ndrops (k : call) (v : Z) : call := mkCall (pc k) (mid k) (seq k) (body k) (ucancel k) (rcancel k) (ackclosed k) (tmade k) (armed k) (tval k) (retries k) (sent k) (hc k) (writer k) (done k) (res k) (out k) (nwrites k) (nsends k) v (nret k) (late k) (isobad k) (deliv k) (snap25 k) (viol25 k) (snap26 k) (viol26 k) (everreg k) (selfclaim k) (sendcanc k) (leftloop k) (violleft k) (entered k).
+Definition set_nret (k : call) (v : Z) : call := mkCall (pc k) (mid k) (seq k) (body k) (ucancel k) (rcancel k) (ackclosed k) (tmade k) (armed k) (tval k) (retries k) (sent k) (hc k) (writer k) (done k) (res k) (out k) (nwrites k) (nsends k) (ndrops k) v (late k) (isobad k) (deliv k) (snap25 k) (viol25 k) (snap26 k) (viol26 k) (everreg k) (selfclaim k) (sendcanc k) (leftloop k) (violleft k) (entered k).
+Definition set_late (k : call) (v : bool) : call := mkCall (pc k) (mid k) (seq k) (body k) (ucancel k) (rcancel k) (ackclosed k) (tmade k) (armed k) (tval k) (retries k) (sent k) (hc k) (writer k) (done k) (res k) (out k) (nwrites k) (nsends k) (ndrops k) (nret k) v (isobad k) (deliv k) (snap25 k) (viol25 k) (snap26 k) (viol26 k) (everreg k) (selfclaim k) (sendcanc k) (leftloop k) (violleft k) (entered k).
+Definition set_isobad (k : call) (v : bool) : call := mkCall (pc k) (mid k) (seq k) (body k) (ucancel k) (rcancel k) (ackclosed k) (tmade k) (armed k) (tval k) (retries k) (sent k) (hc k) (writer k) (done k) (res k) (out k) (nwrites k) (nsends k) (ndrops k) (nret k) (late k) v (deliv k) (snap25 k) (viol25 k) (snap26 k) (viol26 k) (everreg k) (selfclaim k) (sendcanc k) (leftloop k) (violleft k) (entered k).
+Definition set_deliv (k : call) (v : bool) : call := mkCall (pc k) (mid k) (seq k) (body k) (ucancel k) (rcancel k) (ackclosed k) (tmade k) (armed k) (tval k) (retries k) (sent k) (hc k) (writer k) (done k) (res k) (out k) (nwrites k) (nsends k) (ndrops k) (nret k) (late k) (isobad k) v (snap25 k) (viol25 k) (snap26 k) (viol26 k) (everreg k) (selfclaim k) (sendcanc k) (leftloop k) (violleft k) (entered k).
+Definition set_snap25 (k : call) (v : bool) : call := mkCall (pc k) (mid k) (seq k) (body k) (ucancel k) (rcancel k) (ackclosed k) (tmade k) (armed k) (tval k) (retries k) (sent k) (hc k) (writer k) (done k) (res k) (out k) (nwrites k) (nsends k) (ndrops k) (nret k) (late k) (isobad k) (deliv k) v (viol25 k) (snap26 k) (viol26 k) (everreg k) (selfclaim k) (sendcanc k) (leftloop k) (violleft k) (entered k).
+Definition set_viol25 (k : call) (v : bool) : call := mkCall (pc k) (mid k) (seq k) (body k) (ucancel k) (rcancel k) (ackclosed k) (tmade k) (armed k) (tval k) (retries k) (sent k) (hc k) (writer k) (done k) (res k) (out k) (nwrites k) (nsends k) (ndrops k) (nret k) (late k) (isobad k) (deliv k) (snap25 k) v (snap26 k) (viol26 k) (everreg k) (selfclaim k) (sendcanc k) (leftloop k) (violleft k) (entered k).
+Definition set_snap26 (k : call) (v : bool) : call := mkCall (pc k) (mid k) (seq k) (body k) (ucancel k) (rcancel k) (ackclosed k) (tmade k) (armed k) (tval k) (retries k) (sent k) (hc k) (writer k) (done k) (res k) (out k) (nwrites k) (nsends k) (ndrops k) (nret k) (late k) (isobad k) (deliv k) (snap25 k) (viol25 k) v (viol26 k) (everreg k) (selfclaim k) (sendcanc k) (leftloop k) (violleft k) (entered k).
+Definition set_viol26 (k : call) (v : bool) : call := mkCall (pc k) (mid k) (seq k) (body k) (ucancel k) (rcancel k) (ackclosed k) (tmade k) (armed k) (tval k) (retries k) (sent k) (hc k) (writer k) (done k) (res k) (out k) (nwrites k) (nsends k) (ndrops k) (nret k) (late k) (isobad k) (deliv k) (snap25 k) (viol25 k) (snap26 k) v (everreg k) (selfclaim k) (sendcanc k) (leftloop k) (violleft k) (entered k).
+Definition set_everreg (k : call) (v : bool) : call := mkCall (pc k) (mid k) (seq k) (body k) (ucancel k) (rcancel k) (ackclosed k) (tmade k) (armed k) (tval k) (retries k) (sent k) (hc k) (writer k) (done k) (res k) (out k) (nwrites k) (nsends k) (ndrops k) (nret k) (late k) (isobad k) (deliv k) (snap25 k) (viol25 k) (snap26 k) (viol26 k) v (selfclaim k) (sendcanc k) (leftloop k) (violleft k) (entered k).
+Definition set_selfclaim (k : call) (v : bool) : call := mkCall (pc k) (mid k) (seq k) (body k) (ucancel k) (rcancel k) (ackclosed k) (tmade k) (armed k) (tval k) (retries k) (sent k) (hc k) (writer k) (done k) (res k) (out k) (nwrites k) (nsends k) (ndrops k) (nret k) (late k) (isobad k) (deliv k) (snap25 k) (viol25 k) (snap26 k) (viol26 k) (everreg k) v (sendcanc k) (leftloop k) (violleft k) (entered k).
+Definition set_sendcanc (k : call) (v : bool) : call := mkCall (pc k) (mid k) (seq k) (body k) (ucancel k) (rcancel k) (ackclosed k) (tmade k) (armed k) (tval k) (retries k) (sent k) (hc k) (writer k) (done k) (res k) (out k) (nwrites k) (nsends k) (ndrops k) (nret k) (late k) (isobad k) (deliv k) (snap25 k) (viol25 k) (snap26 k) (viol26 k) (everreg k) (selfclaim k) v (leftloop k) (violleft k) (entered k).
+Definition set_leftloop (k : call) (v : bool) : call := mkCall (pc k) (mid k) (seq k) (body k) (ucancel k) (rcancel k) (ackclosed k) (tmade k) (armed k) (tval k) (retries k) (sent k) (hc k) (writer k) (done k) (res k) (out k) (nwrites k) (nsends k) (ndrops k) (nret k) (late k) (isobad k) (deliv k) (snap25 k) (viol25 k) (snap26 k) (viol26 k) (everreg k) (selfclaim k) (sendcanc k) v (violleft k) (entered k).
+Definition set_violleft (k : call) (v : bool) : call := mkCall (pc k) (mid k) (seq k) (body k) (ucancel k) (rcancel k) (ackclosed k) (tmade k) (armed k) (tval k) (retries k) (sent k) (hc k) (writer k) (done k) (res k) (out k) (nwrites k) (nsends k) (ndrops k) (nret k) (late k) (isobad k) (deliv k) (snap25 k) (viol25 k) (snap26 k) (viol26 k) (everreg k) (selfclaim k) (sendcanc k) (leftloop k) v (entered k).
+Definition set_entered (k : call) (v : bool) : call := mkCall (pc k) (mid k) (seq k) (body k) (ucancel k) (rcancel k) (ackclosed k) (tmade k) (armed k) (tval k) (retries k) (sent k) (hc k) (writer k) (done k) (res k) (out k) (nwrites k) (nsends k) (ndrops k) (nret k) (late k) (isobad k) (deliv k) (snap25 k) (viol25 k) (snap26 k) (viol26 k) (everreg k) (selfclaim k) (sendcanc k) (leftloop k) (violleft k) v.
 
 Definition call0 : call :=
   mkCall PIdle 0 0 0 false false false false false false 0 false false None false RNil 0 0 0 0
-         0 false false false false false false false false false false false false.
+         0 false false false false false false false false false false false false false.
 Definition del0 : del := mkDel DIdle PBad 0.
 
 Inductive ev :=
@@ -144,13 +151,14 @@ Record state := mkState {
   ackm : Z -> option Z;        (* Engine.ack: msg id -> call owning the channel *)
   fclosed : bool;              (* reqCtx cancelled *)
   eclosed : bool;              (* Engine.closed *)
-  maxr : Z                     (* Engine.maxRetries *)
+  maxr : Z;                    (* Engine.maxRetries *)
+  used : Z -> bool             (* ghost: msg ids of the calls that have entered Do *)
 }.
 
 Definition upd {A} (f : Z -> A) (k : Z) (v : A) : Z -> A := fun x => if Z.eqb x k then v else f x.
 
 Definition init (mx : Z) : state :=
-  mkState (fun _ => call0) (fun _ => del0) (fun _ => None) (fun _ => None) false false mx.
+  mkState (fun _ => call0) (fun _ => del0) (fun _ => None) (fun _ => None) false false mx (fun _ => false).
 
 Definition ret_code (r : retv) : Z * Z :=
   match r with
@@ -196,7 +204,7 @@ Definition caller (mx : Z) (fc ec ackfree : bool) (c : Z) (k : call) (e : ev) : 
   match e with
   | CEntered _ m q b =>
       match pc k with
-      | PIdle => if ec then None else Some (set_body (set_seq (set_mid (set_pc k PEntered) m) q) b, GNone)
+      | PIdle => if ec then None else Some (set_entered (set_body (set_seq (set_mid (set_pc k PEntered) m) q) b) true, GNone)
       | _ => None
       end
   | CRegistered _ =>
@@ -216,7 +224,7 @@ Definition caller (mx : Z) (fc ec ackfree : bool) (c : Z) (k : call) (e : ev) : 
         | PAckWait =>
             if Z.eqb o 0 then Some (set_pc k1 PSentGo, GNone)
             else if Z.eqb o 1 then Some (set_pc k1 (PExit LSendFail1), GNone)
-            else if Z.eqb o 2 then Some (set_sendcanc (set_pc k1 (PExit LSendCanc1)) true, GNone)
+            else if Z.eqb o 2 && rcancel k then Some (set_sendcanc (set_pc k1 (PExit LSendCanc1)) true, GNone)
             else None
         | PTimerGo =>
             (* timer.Reset, then the retransmission *)
@@ -226,7 +234,7 @@ Definition caller (mx : Z) (fc ec ackfree : bool) (c : Z) (k : call) (e : ev) : 
               if Z.geb (retries k + 1) mx then Some (set_pc k3 (PExit LLimit), GNone)
               else Some (set_pc k3 PSentGo, GNone)
             else if Z.eqb o 1 then Some (set_pc k2 (PExit LSendFail), GNone)
-            else if Z.eqb o 2 then Some (set_sendcanc (leave k2 LNil) true, GNone)
+            else if Z.eqb o 2 && rcancel k then Some (set_sendcanc (leave k2 LNil) true, GNone)
             else None
         | _ => None
         end
@@ -303,7 +311,9 @@ Definition caller (mx : Z) (fc ec ackfree : bool) (c : Z) (k : call) (e : ev) : 
   | CSettled _ =>
       match pc k with
       | PUnreg r => if hc k then None else Some (set_selfclaim (set_hc (set_pc k (PSettled r)) true) true, GNone)
-      | PAwait r => if done k then Some (set_pc k (PSettled r), GNone) else None
+      | PAwait r =>
+          (* /repo 459a12526: the answer was being handled while the engine closed: prefer it *)
+          if done k then Some (set_pc k (PSettled (if is_closed_retryable r then res k else r)), GNone) else None
       | _ => None
       end
   | CReturn _ rc rd rtp rtt =>
@@ -333,14 +343,16 @@ Definition ev_caller (e : ev) : option Z :=
 
 Definition apply_geff (s : state) (c : Z) (k : call) (g : geff) : state :=
   match g with
-  | GNone => mkState (upd (calls s) c k) (dels s) (rpcm s) (ackm s) (fclosed s) (eclosed s) (maxr s)
-  | GRpc m h => mkState (upd (calls s) c k) (dels s) (upd (rpcm s) m h) (ackm s) (fclosed s) (eclosed s) (maxr s)
-  | GAck m o => mkState (upd (calls s) c k) (dels s) (rpcm s) (upd (ackm s) m o) (fclosed s) (eclosed s) (maxr s)
+  | GNone => mkState (upd (calls s) c k) (dels s) (rpcm s) (ackm s) (fclosed s) (eclosed s) (maxr s) (used s)
+  | GRpc m h => mkState (upd (calls s) c k) (dels s) (upd (rpcm s) m h) (ackm s) (fclosed s) (eclosed s) (maxr s) (used s)
+  | GAck m o => mkState (upd (calls s) c k) (dels s) (rpcm s) (upd (ackm s) m o) (fclosed s) (eclosed s) (maxr s) (used s)
   end.
 
 Definition set_call (s : state) (c : Z) (k : call) : state := apply_geff s c k GNone.
+Definition mark_used (s : state) (m : Z) : state :=
+  mkState (calls s) (dels s) (rpcm s) (ackm s) (fclosed s) (eclosed s) (maxr s) (upd (used s) m true).
 Definition set_del (s : state) (d : Z) (x : del) : state :=
-  mkState (calls s) (upd (dels s) d x) (rpcm s) (ackm s) (fclosed s) (eclosed s) (maxr s).
+  mkState (calls s) (upd (dels s) d x) (rpcm s) (ackm s) (fclosed s) (eclosed s) (maxr s) (used s).
 Definition set_dpc (x : del) (p : dpc) : del := mkDel p (dpay x) (dmid x).
 
 Definition payload_of (k v : Z) : option payload :=
@@ -373,7 +385,15 @@ Definition step (s : state) (e : ev) : option state :=
   | Some c =>
       let k := calls s c in
       match caller (maxr s) (fclosed s) (eclosed s) (isNone (ackm s (mid k))) c k e with
-      | Some (k', g) => Some (apply_geff s c k' g)
+      | Some (k', g) =>
+          match e with
+          | CEntered _ m _ _ =>
+              (* environment assumption, explicit: the msg ids of all calls are pairwise distinct
+                 (C08: outgoing ids are unique on a connection); a second Do with an id that was
+                 already used is not part of the modelled histories *)
+              if used s m then None else Some (mark_used (apply_geff s c k' g) m)
+          | _ => Some (apply_geff s c k' g)
+          end
       | None => None
       end
   | None =>
@@ -419,7 +439,12 @@ Definition step (s : state) (e : ev) : option state :=
             Some (set_del (set_call s c k') d (set_dpc x (DDecoded c true)))
           else None
       | DClaimed c', PBad =>
-          if Z.eqb c c' && negb ok then Some (set_del s d (set_dpc x (DDecoded c false))) else None
+          (* a failing Decode may have written part of the Output: same ghosts, no value *)
+          if Z.eqb c c' && negb ok then
+            let k' := set_isobad (set_late k (late k || is_returned (pc k)))
+                                 (isobad k || negb (Z.eqb (dmid x) (mid k))) in
+            Some (set_del (set_call s c k') d (set_dpc x (DDecoded c false)))
+          else None
       | _, _ => None
       end
   | NDoneClosed d c =>
@@ -452,15 +477,15 @@ Definition step (s : state) (e : ev) : option state :=
       end
   | XAcks l l2 =>
       let '(cs, am, cl) := do_acks (calls s) (ackm s) l in
-      if zlist_eqb cl l2 then Some (mkState cs (dels s) (rpcm s) am (fclosed s) (eclosed s) (maxr s)) else None
+      if zlist_eqb cl l2 then Some (mkState cs (dels s) (rpcm s) am (fclosed s) (eclosed s) (maxr s) (used s)) else None
   | XCancel c =>
       let k := calls s c in
       Some (set_call s c (set_deliv (set_rcancel (set_ucancel k true) true) true))
   | XTimerFire c =>
       let k := calls s c in
       if armed k then Some (set_call s c (set_tval (set_armed k false) true)) else None
-  | XForceCancel => Some (mkState (calls s) (dels s) (rpcm s) (ackm s) true (eclosed s) (maxr s))
-  | XCloseMark => Some (mkState (calls s) (dels s) (rpcm s) (ackm s) (fclosed s) true (maxr s))
+  | XForceCancel => Some (mkState (calls s) (dels s) (rpcm s) (ackm s) true (eclosed s) (maxr s) (used s))
+  | XCloseMark => Some (mkState (calls s) (dels s) (rpcm s) (ackm s) (fclosed s) true (maxr s) (used s))
   | _ => None
   end
   end.
